@@ -606,12 +606,14 @@ def genattr(pm: ProgramModel, ctx: Ctx, mb: ModelBuilder) -> None:
         return it
 
     # (a) mutation discipline over both leaf-only settings -------------------------------------------
-    for only_leaf in (False, True):
-        fm = rich_model(mb)
+    for only_leaf, shape in ((False, "rich"), (True, "rich"), (False, "root-only"), (True, "root-only")):
+        # (the model that is its root alone: the root is the only feature and the only leaf)
+        fm = rich_model(mb) if shape == "rich" else mb.model(mb.feature("Solo"), [])
         feats = _features(fm)
-        have = feats[3]
-        pre = mb.attribute("rnd", "keep", have)
-        have._f["attributes"].append(pre)
+        have = feats[3] if shape == "rich" else None
+        if have is not None:
+            pre = mb.attribute("rnd", "keep", have)
+            have._f["attributes"].append(pre)
         before_attrs = {id(f): list(f._f["attributes"]) for f in feats}
         dom = AObj("Domain", range_list=[], element_list=["e1", "e2"])
         # everything except the attribute lists is frozen
@@ -653,7 +655,7 @@ def genattr(pm: ProgramModel, ctx: Ctx, mb: ModelBuilder) -> None:
                 bad.append("constraints of the model were modified")
             if res is not fm:
                 bad.append("the operation does not return the model it was given")
-        ctx.check(not bad, rule, f"adds-exactly-one:only_leaf={only_leaf}", where,
+        ctx.check(not bad, rule, f"adds-exactly-one:only_leaf={only_leaf}" + ("" if shape == "rich" else f":{shape}"), where,
                   "each targeted feature lacking the attribute gets exactly one (name, parent, value "
                   "from the domain); others untouched", bad="; ".join(bad[:3]))
     # (a') the attribute that ends up on the feature holds the drawn value itself (no conversion on the way) ---
@@ -781,11 +783,41 @@ def genattr(pm: ProgramModel, ctx: Ctx, mb: ModelBuilder) -> None:
         r = it.call(pm.method(ci, "get_result"), [op])
     except AbsRaise as exc:
         r = ("raise", exc.what)
-    ctx.check(isinstance(r, tuple) and r[0] == "GEN" and len(r[1]) == 4 and r[1][0] is fm
+    ctx.check(isinstance(r, tuple) and r[0] == "GEN" and len(r[1]) >= 4 and r[1][0] is fm
               and r[1][1] == "rnd" and r[1][2] is d and r[1][3] is True, rule, "wrap",
               loc(ci.unit.path, ci.methods["execute"].node),
               "execute forwards (model, name, domain, only_leaf_features) to the generator",
               bad=f"execute does not forward (model, name, domain, only_leaf) in that order: {str(r)[:120]}")
+
+
+    # (e) one operation object used for several attributes on one model, the caller editing attribute lists in between -----
+    it = mk()
+    op = it.eval_call_class(ci)
+    fm = rich_model(mb)
+    feats = _features(fm)
+
+    def count(f: AObj, nm: str) -> int:
+        return sum(1 for a_ in f._f["attributes"] if isinstance(a_, AObj) and a_._f.get("name") == nm)
+    try:
+        it.call(pm.method(ci, "set_domain"), [op, dom_of([], ["a", "b"])])
+        it.call(pm.method(ci, "set_name"), [op, "cost2"])
+        it.call(pm.method(ci, "execute"), [op, fm])
+        x, y = feats[1], feats[2]
+        x._f["attributes"].append(mb.attribute("weight", "mine", x))      # the caller gives one feature the next attribute
+        y._f["attributes"] = []                                           # and strips another feature of all it has
+        it.call(pm.method(ci, "set_name"), [op, "weight"])
+        it.call(pm.method(ci, "execute"), [op, fm])
+        it.call(pm.method(ci, "set_name"), [op, "cost2"])
+        it.call(pm.method(ci, "execute"), [op, fm])
+        bad_ = [f"{f._f['name']}: {count(f, nm_)} x {nm_}" for f in feats for nm_ in ("cost2", "weight") if count(f, nm_) != 1]
+        kept = any(a_._f.get("default_value") == "mine" for a_ in x._f["attributes"] if isinstance(a_, AObj))
+        ctx.check(not bad_ and kept, rule, "sequence:same-object-several-attributes-with-edits", where,
+                  "executed again after the caller edited attribute lists, the operation looks at the features as they are now",
+                  bad="after execute, an edit of attribute lists by the caller and further executions on the same object, "
+                      f"features do not hold exactly one attribute of each name: {bad_[:4]}" + ("" if kept else
+                      "; the caller's own attribute was replaced"))
+    except (AbsRaise, AbsMutation) as exc:
+        ctx.violation(rule, "sequence:same-object-several-attributes-with-edits", where, f"raises {exc.what}")
 
 
 def _features(fm: AObj) -> list[AObj]:
